@@ -8,7 +8,7 @@ import (
 
 //ConnectedComponent returns the connected component in g containing v.
 func ConnectedComponent(g Graph, v int) []int {
-	toCheck := make([]int, 1, g.N()-1)
+	toCheck := make([]int, 1, g.N())
 	toCheck[0] = v
 	unseen := make([]int, g.N())
 	for i := range unseen {
